@@ -472,6 +472,77 @@ func TestPropCreate(t *testing.T) { runProp(t, "create", "create", 150, 2000) }
 func TestPropRename(t *testing.T) { runProp(t, "rename", "rename", 150, 2000) }
 func TestPropMixed(t *testing.T)  { runProp(t, "mixed", "", 150, 2500) }
 
+// ---------------------------------------------------------------- pipelined requests on one fid
+
+// genRaceCase draws 2..6 rounds. Every round has its own spine t<i>/a/v[/w]
+// (depth 2..4, the last element a directory or a file); the fid is walked to
+// its end and 2..4 requests naming that fid are sent in one chunk: a rename
+// whose target climbs as far as it can while staying inside the root from
+// where the fid is (with chmod / chown, which the server does first), and
+// requests that move the same fid meanwhile - in-place walks with "..",
+// renames to a shallower place, a create - in a drawn order. Whatever
+// interleaving the server produces must stay confined.
+func genRaceCase(t *rapid.T) *Case {
+	c := &Case{Dotu: rapid.IntRange(0, 4).Draw(t, "dotu") != 0}
+	n := rapid.IntRange(2, 6).Draw(t, "rounds")
+	for i := 0; i < n; i++ {
+		depth := rapid.IntRange(2, 4).Draw(t, "depth")
+		els := []string{fmt.Sprintf("t%d", i), "a", "v", "w"}[:depth]
+		file := rapid.IntRange(0, 4).Draw(t, "file") == 0
+		for k := 1; k <= depth; k++ {
+			kind := "d"
+			if k == depth && file {
+				kind = "f"
+			}
+			c.Tree = append(c.Tree, Node{Path: strings.Join(els[:k], "/"), Kind: kind})
+		}
+		climb := func(label string) RaceOp {
+			// parent of the fid is depth-1 levels below the root
+			j := rapid.SampledFrom([]int{depth - 1, depth - 1, depth - 1, depth - 2, depth, 1}).Draw(t, label)
+			if j < 0 {
+				j = 0
+			}
+			return RaceOp{Op: "rename", Name: ups(j) + fmt.Sprintf("m%d%s", i, label), Chmod: rapid.IntRange(0, 3).Draw(t, "chmod") != 0, Chown: rapid.IntRange(0, 3).Draw(t, "chown") != 0}
+		}
+		ops := []RaceOp{climb("x")}
+		extra := rapid.IntRange(1, 3).Draw(t, "extra")
+		for k := 0; k < extra; k++ {
+			switch rapid.SampledFrom([]int{0, 0, 0, 1, 2, 3, 4, 5}).Draw(t, "racer") {
+			case 0:
+				ops = append(ops, RaceOp{Op: "walk", Names: strings.Split(strings.TrimSuffix(ups(rapid.IntRange(1, 2).Draw(t, "k")), "/"), "/")})
+			case 1:
+				ops = append(ops, RaceOp{Op: "rename", Name: fmt.Sprintf("/r%d_%d", i, k)})
+			case 2:
+				ops = append(ops, RaceOp{Op: "rename", Name: fmt.Sprintf("../s%d_%d", i, k), Chmod: rapid.Bool().Draw(t, "chmod2")})
+			case 3:
+				ops = append(ops, RaceOp{Op: "create", Name: fmt.Sprintf("c%d", k), Dir: rapid.Bool().Draw(t, "cdir")})
+			case 4:
+				ops = append(ops, climb(fmt.Sprintf("y%d", k)))
+			default:
+				ops = append(ops, RaceOp{Op: "stat"})
+			}
+		}
+		ops = rapid.Permutation(ops).Draw(t, "order")
+		c.Races = append(c.Races, Race{Base: els, Ops: ops})
+	}
+	return c
+}
+
+func TestPropRace(t *testing.T) {
+	hx.Check(t, "race", hx.N(300, 4000), func(t *rapid.T) {
+		c := genRaceCase(t)
+		hx.Journal("race", c)
+		hx.Sample("race", c)
+		if err := RunCase(c); err != nil {
+			if isInfra(err) {
+				hx.Inconclusive(err.Error())
+				t.Skip(err.Error())
+			}
+			hx.Failf(t, "race", c, "%v", err)
+		}
+	})
+}
+
 func TestReplay(t *testing.T) {
 	e, err := hx.LoadReplay()
 	if e == nil {
